@@ -129,18 +129,18 @@ Definition f2_sheap : heap := [obj0; mkObj (Some 0) true []; mkObj (Some 1) true
 Definition f2_iheap : iheap := [iobj0; mkIObj (Some 0) true [] names0 []; mkIObj (Some 1) true [] names0 []].
 Definition f2_op := OSet 2 (KSym 0) false (VNum 3) 1.
 
-Lemma set_refuted :
-  map s_dump (fst (fst (sstep f2_sheap f2_op))) <> map i_dump (fst (fst (istep fx_none f2_iheap f2_op)))
-  /\ hget (fst (fst (sstep f2_sheap f2_op))) 0 = hget f2_sheap 0
-  /\ i_dump (ihget (fst (fst (istep fx_none f2_iheap f2_op))) 0) <> i_dump (ihget f2_iheap 0).
-Proof. vm_compute. repeat split; discriminate. Qed.
+(* the tree before commit 3750984 wrote to the receiver's prototype here (F2); the current tree agrees with S *)
+Lemma set_f2_case_agrees :
+  map s_dump (fst (fst (sstep f2_sheap f2_op))) = map i_dump (fst (fst (istep fx_cur f2_iheap f2_op)))
+  /\ map s_dump (fst (fst (sstep f2_sheap f2_op))) <> map i_dump (fst (fst (istep fx_none f2_iheap f2_op))).
+Proof. vm_compute. split; [reflexivity | discriminate]. Qed.
 
-Lemma set_repaired_witness :
-  map s_dump (fst (fst (sstep f2_sheap f2_op))) = map i_dump (fst (fst (istep fx_all f2_iheap f2_op))).
-Proof. vm_compute. reflexivity. Qed.
+Lemma i_set_only_receiver_cur : forall h o k num v r,
+  forall j, j <> r -> i_dump (ihget (fst (fst (i_set fx_cur h o k num v r))) j) = i_dump (ihget h j).
+Proof. intros. apply i_set_only_receiver; auto. simpl. apply andb_false_r. Qed.
 
 (* the string-keyed twin of the F2 case is right on the current tree: the defect is a str/sym drift *)
 Lemma set_str_twin_agrees :
   let op := OSet 2 (KStr 0) false (VNum 3) 1 in
-  map s_dump (fst (fst (sstep f2_sheap op))) = map i_dump (fst (fst (istep fx_none f2_iheap op))).
+  map s_dump (fst (fst (sstep f2_sheap op))) = map i_dump (fst (fst (istep fx_cur f2_iheap op))).
 Proof. vm_compute. reflexivity. Qed.
